@@ -155,7 +155,8 @@ def guard_inactive(h, s, out, k):
 
 
 # ------------------------------------------------------------------ displace
-@proof(PROPS + ["C08"], G + ":GaussianModes.displace")
+@proof(PROPS + ["C08"], G + ":GaussianModes.displace",
+       native="from native.c01_gaussian import replay; replay('displace', OBLIGATION, I)")
 def _displace(h):
     s = mk(h)
     k = h.int("k", lo=0); h.require(k < s.n)
@@ -187,7 +188,8 @@ def _squeeze_defs(v):
 loop_defs(G + ":GaussianModes.squeeze#0", _squeeze_defs, split=lambda v: [v.k])
 
 
-@proof(PROPS + ["C08"], G + ":GaussianModes.squeeze")
+@proof(PROPS + ["C08"], G + ":GaussianModes.squeeze",
+       native="from native.c01_gaussian import replay; replay('squeeze', OBLIGATION, I)")
 def _squeeze(h):
     s = mk(h)
     k = h.int("k", lo=0); h.require(k < s.n)
@@ -219,7 +221,8 @@ def _phase_defs(v):
 loop_defs(G + ":GaussianModes.phase_shift#0", _phase_defs, split=lambda v: [v.k])
 
 
-@proof(PROPS + ["C08"], G + ":GaussianModes.phase_shift")
+@proof(PROPS + ["C08"], G + ":GaussianModes.phase_shift",
+       native="from native.c01_gaussian import replay; replay('phase_shift', OBLIGATION, I)")
 def _phase(h):
     s = mk(h)
     k = h.int("k", lo=0); h.require(k < s.n)
@@ -257,7 +260,8 @@ def _bs_defs(v):
 loop_defs(G + ":GaussianModes.beamsplitter#0", _bs_defs, split=lambda v: [v.k, v.l])
 
 
-@proof(PROPS + ["C08"], G + ":GaussianModes.beamsplitter")
+@proof(PROPS + ["C08"], G + ":GaussianModes.beamsplitter",
+       native="from native.c01_gaussian import replay; replay('beamsplitter', OBLIGATION, I)")
 def _bs(h):
     s = mk(h, n_lo=2)
     k = h.int("k", lo=0); h.require(k < s.n)
@@ -291,7 +295,8 @@ def channel_spec(s, k, t, extra):
     return Nspec, Mspec, aspec
 
 
-@proof(PROPS + ["C08"], G + ":GaussianModes.loss")
+@proof(PROPS + ["C08"], G + ":GaussianModes.loss",
+       native="from native.c01_gaussian import replay; replay('loss', OBLIGATION, I)")
 def _loss(h):
     s = mk(h)
     k = h.int("k", lo=0); h.require(k < s.n)
@@ -306,7 +311,8 @@ def _loss(h):
     h.ensure("conserve.N_kk-scaled", eqv(s.self.nmat.at(k, k), T * s.N0.at(k, k)))
 
 
-@proof(PROPS + ["C08"], G + ":GaussianModes.thermal_loss")
+@proof(PROPS + ["C08"], G + ":GaussianModes.thermal_loss",
+       native="from native.c01_gaussian import replay; replay('thermal_loss', OBLIGATION, I)")
 def _thermal_loss(h):
     s = mk(h)
     k = h.int("k", lo=0); h.require(k < s.n)
@@ -321,7 +327,8 @@ def _thermal_loss(h):
     post_all(h, s, [k], *channel_spec(s, k, t, (1 - T) * nbar))
 
 
-@proof(["C05", "C07", "C08"], G + ":GaussianModes.init_thermal")
+@proof(["C05", "C07", "C08"], G + ":GaussianModes.init_thermal",
+       native="from native.c01_gaussian import replay; replay('init_thermal', OBLIGATION, I)")
 def _init_thermal(h):
     s = mk(h)
     k = h.int("k", lo=0); h.require(k < s.n)
@@ -332,3 +339,63 @@ def _init_thermal(h):
         return
     # the prepared mode is thermal and uncorrelated with the rest; the rest is untouched
     post_all(h, s, [k], *channel_spec(s, k, 0, pop))
+
+
+# ------------------------------------------------------------------ add_mode (C01/C05/C08)
+def _q2(f):
+    return forall(lambda a, b: f(a, b))
+
+
+def _addmode_outer(v):
+    s, n, i = v.self, v.self.nlen, v.idx
+    nn = v.newnlen
+    return {
+        "N": _q2(lambda a, b: Implies(And(a >= 0, b >= 0, a < nn, b < nn),
+                                      eqv(v.newnmat.at(a, b), ite(And(a < i, b < n), s.nmat.at(a, b), SC.lift(0))))),
+        "M": _q2(lambda a, b: Implies(And(a >= 0, b >= 0, a < nn, b < nn),
+                                      eqv(v.newmmat.at(a, b), ite(And(a < i, b < n), s.mmat.at(a, b), SC.lift(0))))),
+        "mean": forall(lambda a: Implies(And(a >= 0, a < nn), eqv(v.newmean.at(a), ite(a < i, s.mean.at(a), SC.lift(0))))),
+        "active": forall(lambda a: Implies(And(a >= 0, a < nn), eqv(v.newactive.at(a), ite(a < i, s.active.at(a), a)))),
+        "len-active": v.newactive.length() == nn,
+    }
+
+
+def _addmode_inner(v):
+    s, n, j, i = v.self, v.self.nlen, v.idx, v.i
+    nn = v.newnlen
+    return {
+        "N": _q2(lambda a, b: Implies(And(a >= 0, b >= 0, a < nn, b < nn),
+                                      eqv(v.newnmat.at(a, b), ite(Or(And(a < i, b < n), And(a == i, b < j)), s.nmat.at(a, b), SC.lift(0))))),
+        "M": _q2(lambda a, b: Implies(And(a >= 0, b >= 0, a < nn, b < nn),
+                                      eqv(v.newmmat.at(a, b), ite(Or(And(a < i, b < n), And(a == i, b < j)), s.mmat.at(a, b), SC.lift(0))))),
+        "mean": forall(lambda a: Implies(And(a >= 0, a < nn), eqv(v.newmean.at(a), ite(a <= i, s.mean.at(a), SC.lift(0))))),
+        "active": forall(lambda a: Implies(And(a >= 0, a < nn), eqv(v.newactive.at(a), ite(a <= i, s.active.at(a), a)))),
+        "len-active": v.newactive.length() == nn,
+    }
+
+
+loop_inv(G + ":GaussianModes.add_mode#0", inv=_addmode_outer)
+loop_inv(G + ":GaussianModes.add_mode#1", inv=_addmode_inner)
+
+
+@proof(["C01", "C05", "C08"], G + ":GaussianModes.add_mode",
+       native="from native.c01_gaussian import replay; replay('add_mode', OBLIGATION, I)")
+def _add_mode(h):
+    s = mk(h)
+    k = h.int("n_new", lo=1)
+    out = h.call(s.self.add_mode, k)
+    h.ensure("no-exception", out.returned)
+    if not out.returned:
+        return
+    self, n, i, j = s.self, s.n, s.i, s.j
+    h.ensure("post.nlen", self.nlen == n + k)
+    a = h.eng.sym_int("ca"); b = h.eng.sym_int("cb")
+    h.eng.assume(And(a >= 0, b >= 0, a < n + k, b < n + k))
+    # the old modes keep ALL their moments (no transposition / conjugation), the new modes are vacuum
+    # and uncorrelated with everything
+    h.ensure("post.N", eqv(self.nmat.at(a, b), ite(And(a < n, b < n), s.N0.at(a, b), SC.lift(0))))
+    h.ensure("post.M", eqv(self.mmat.at(a, b), ite(And(a < n, b < n), s.M0.at(a, b), SC.lift(0))))
+    h.ensure("post.alpha", eqv(self.mean.at(a), ite(a < n, s.a0.at(a), SC.lift(0))))
+    # C08: old modes keep their activity, new modes are alive under fresh consecutive indices
+    h.ensure("post.active", eqv(self.active.at(a), ite(a < n, s.act0.at(a), a)))
+    h.ensure("post.len-active", self.active.length() == n + k)
